@@ -60,6 +60,9 @@ fn windows(side: &Side, user_suspends: &[(u64, u64)]) -> Vec<(u64, u64, u64, u64
                 if let Some((s, svt)) = open.take() {
                     out.push((s, i.seq, svt, u64::MAX));
                 }
+                // only the first incarnation is judged: a transaction re-spawned under the same id
+                // by late PDUs (and what the daemon's routing table does with it) is C11's subject
+                return out;
             }
             _ => {}
         }
